@@ -313,6 +313,12 @@ def gen_fuzz(ctx):
         pos = rng.randrange(len(b))
         b[pos] ^= 1 << rng.randrange(8)
         cases.append({'hex': bytes(b).hex(), 'version': rng.choice(['10', '11'])})
+    # XML declarations naming unknown, mismatching or multi-byte encodings (byte sources)
+    body = b'<t:root xmlns:t="urn:c11"><t:item><t:n>1</t:n></t:item></t:root>'
+    for enc in ('bogus-enc', 'utf-16', 'UTF-32', 'latin-1', 'ascii', 'cp037', 'utf-7', 'x-user-defined', '', 'UTF-8 ', 'idna'):
+        cases.append({'hex': (b'<?xml version="1.0" encoding="' + enc.encode() + b'"?>' + body).hex(), 'version': '10'})
+    cases.append({'hex': ('<?xml version="1.0" encoding="utf-16"?>' + body.decode()).encode('utf-16').hex(), 'version': '10'})
+    cases.append({'hex': (b'<?xml version="1.0" encoding="latin-1"?>' + body.replace(b'>1<', b'>\xe9<')).hex(), 'version': '10'})
     # corpus documents of the repository's test cases with a seeded lexical mutation
     corpus = []
     base = os.path.join(str(common.REPO), 'tests', 'test_cases', 'examples')
